@@ -73,9 +73,6 @@ Definition send : Type := (N * bool * dest * omsg)%type.
 Definition send_eqv (a b : send) : bool :=
   let '(i, v, d, m) := a in let '(i', v', d', m') := b in
   (i =? i') && Bool.eqb v v' && dest_eqb d d' && msg_eqv m m'.
-(* the interface of IPv4 packets ignored *)
-Definition loosen (s : send) : send := let '(i, v, d, m) := s in ((if v then 0 else i), v, d, m).
-
 Definition sends_of (os : list out) : list send :=
   flat_map (fun o => match o with OSend i v d m => [(i, v, d, m)] | _ => [] end) os.
 Definition replies_of (os : list out) : list (bytes * bool) :=
@@ -177,20 +174,8 @@ Definition c09_iter (st : dstate) (it : iter) (post : dstate) (obs : list out) :
   let resends := if exited then [] else spec_resends st now in
   let obs_gb := filter (fun s => is_goodbye (snd s)) (sends_of obs) in
   let v_reply := if perm_by reply_eqb (replies_of obs) reps then [] else [VFail 1] in
-  let try (resolved ann loose : bool) :=
-    let '(_, gbs, _, _) := spec_calls st1 (it_calls it) now js1 resolved ann in
-    if loose then perm_by send_eqv (map loosen obs_gb) (map loosen (gbs ++ resends))
-    else perm_by send_eqv obs_gb (gbs ++ resends) in
-  let v_gb :=
-    if try true true false then []
-    else if try false true false then [VKnown 11]
-    else if try true false false then [VKnown 12]
-    else if try false false false then [VKnown 13]
-    else if try true true true then [VKnown 14]
-    else if try false true true then [VKnown 15]
-    else if try true false true then [VKnown 16]
-    else if try false false true then [VKnown 17]
-    else [VFail 2] in
+  let '(_, gbs, _, _) := spec_calls st1 (it_calls it) now js1 true true in
+  let v_gb := if perm_by send_eqv obs_gb (gbs ++ resends) then [] else [VFail 2] in
   let svcs := map snd (d_svcs st1) ++ seen in
   let v_quiet :=
     flat_map
@@ -224,24 +209,60 @@ Definition uses_old (olds : list bytes) (r : rr) : bool :=
 Definition owns_old (olds : list bytes) (r : rr) : bool :=
   ((r_type r =? TY_SRV) || (r_type r =? TY_TXT)) && existsb (fun o => same_name_ci o (r_name r)) olds.
 
-(* `e`: how the iteration ended on the implementation, `em`: in the model.  A daemon thread that
-   dies is a violation; it is the known class when the model predicts the death at the same
-   point (the only modelled cause: a label of 64 bytes or more reaches write_utf8). *)
-Definition c08_iter (st : dstate) (it : iter) (post : dstate) (obs : list out) (e em : ending) : list verdict :=
-  (match e, em with
-   | Panicked, Panicked => [VKnown 21]
-   | Panicked, _ => [VFail 21]
-   | _, _ => [] end)
-  ++ flat_map
-       (fun s => let '(i, _, _, m) := s in
-                 let olds := old_names (get_reg st i) in
-                 if o_resp m && existsb (uses_old olds) (o_an m ++ o_ar m) then
-                   if is_goodbye m then [VKnown 22]
-                   else if is_announcement m then [VFail 24]
-                   else if existsb (owns_old olds) (o_an m ++ o_ar m) then [VKnown 28]
-                   else [VKnown 23]
-                 else [])
-       (sends_of obs).
+Definition pkey : Type := (N * list bytes)%type.          (* interface, lower-cased labels *)
+Definition pkey_eqb (a b : pkey) : bool := (fst a =? fst b) && labels_beq (snd a) (snd b).
+
+Definition probed_keys (os : list out) : list pkey :=
+  flat_map (fun s => let '(i, _, _, m) := s in
+                     if negb (o_resp m) then map (fun q => (i, lname (fst q))) (o_q m) else []) (sends_of os).
+
+(* Competing probes delivered in this iteration that the daemon LOSES (its probe has started and
+   its records compare Less, by the specification's tb_cmp): the name must not be probed again
+   before now + 1000. *)
+Definition lost_tiebreaks (st : dstate) (it : iter) : list (pkey * N) :=
+  flat_map
+    (fun g =>
+       if g_resp g then []
+       else match g_ns g with
+            | [] => []
+            | _ =>
+              flat_map (fun q =>
+                 if snd q =? TY_ANY then
+                   match aget (fst q) (rg_probing (get_reg st (g_if g))) with
+                   | Some pb =>
+                     if (pb_start pb <? it_now it)
+                        && match tb_cmp (map p_rr (pb_records pb)) (filter (fun r => beq (r_name r) (fst q)) (g_ns g)) with
+                           | Lt => true | _ => false end
+                     then [((g_if g, lname (fst q)), it_now it + 1000)] else []
+                   | None => []
+                   end
+                 else []) (g_q g)
+            end)
+    (it_dgrams it).
+
+(* `e`: how the iteration ended on the implementation, `em`: in the model; `mos`: the model's
+   outputs of the iteration; `defer`: names deferred by lost tie-breaks and until when. *)
+Definition c08_iter (defer : list (pkey * N)) (st : dstate) (it : iter) (post : dstate) (obs mos : list out) (e em : ending)
+  : list (pkey * N) * list verdict :=
+  let now := it_now it in
+  let defer1 := filter (fun kd => now <? snd kd) (defer ++ lost_tiebreaks st it) in
+  let early (os : list out) (k : pkey) : bool := existsb (pkey_eqb k) (probed_keys os) in
+  (defer1,
+   (match e, em with
+    | Panicked, _ => [VFail 21]
+    | _, _ => [] end)
+   ++ flat_map (fun kd => if early obs (fst kd)
+                          then (if early mos (fst kd) then [VKnown 30] else [VFail 29]) else []) defer1
+   ++ flat_map
+        (fun s => let '(i, _, _, m) := s in
+                  let olds := old_names (get_reg st i) in
+                  if o_resp m && existsb (uses_old olds) (o_an m ++ o_ar m) then
+                    if is_goodbye m then [VFail 22]
+                    else if is_announcement m then [VFail 24]
+                    else if existsb (owns_old olds) (o_an m ++ o_ar m) then [VFail 28]
+                    else [VFail 23]
+                  else [])
+        (sends_of obs)).
 
 (* End of a history in which several daemons on one loss-free link registered the same instance:
    every daemon ends announced (its last announced instance name at least twice), the final
@@ -272,9 +293,6 @@ Definition c08_final (registered : bytes) (per_daemon : list (list bytes)) : lis
    C07  three probes 250 ms apart, 250 ms of silence, two announcements one second apart
    ====================================================================================================== *)
 
-Definition pkey : Type := (N * list bytes)%type.          (* interface, lower-cased labels *)
-Definition pkey_eqb (a b : pkey) : bool := (fst a =? fst b) && labels_beq (snd a) (snd b).
-
 Section KV.
   Context {K V : Type} (keqb : K -> K -> bool).
   Fixpoint kget (k : K) (l : list (K * V)) : option V :=
@@ -293,20 +311,19 @@ Definition rr_eqv_nottl (a b : rr) : bool :=
 Definition rkey_eqb (a b : rkey) : bool := (fst a =? fst b) && rr_eqv_nottl (snd a) (snd b).
 
 Record g7 : Type := mkG7 {
-  g_last : list (pkey * N);        (* time of the last probe query for the name *)
-  g_cnt : list (pkey * N);         (* number of iterations that sent a probe query for the name *)
+  g_last : list (pkey * N);        (* time of the last probe query for the name (in the current series) *)
+  g_cnt : list (pkey * N);         (* number of iterations that sent a probe query for the name (current series) *)
   g_rcnt : list (rkey * N);        (* number of those that carried the record in the authority section *)
   g_est : list pkey;               (* names that completed three probes and the 250 ms wait (and stay held) *)
   g_late : bool;                   (* some iteration ran later than the wake-up the daemon had asked for *)
   g_due : option N;                (* the model's earliest due work after the previous iteration *)
-  g_ann : list (pkey * (N * N));   (* instance -> (time of the first announcement, announcements so far) *)
+  g_ann : list (pkey * (N * N * bool));  (* instance -> (time of the first announcement, announcements so far,
+                                      first announced while an interface was being added) *)
   g_unreg : bool;                  (* an unregister or shutdown call was made *)
-  g_unarmed : list (pkey * N);     (* probes created inside the probing handler: (interface, name) -> next_send *)
-  g_skew : list pkey }.            (* names whose probe had next_send >= start_time + 750 at some point: it will
-                                      finish at next_send without another probe query (update_hostname moves
-                                      start_time of a probe that a lost tie-break had deferred) *)
+  g_toggled : bool;                (* enable_interface / disable_interface was called *)
+  g_unarmed : list (pkey * N) }.   (* probes created while a RegisterResend ran: (interface, name) -> next_send *)
 
-Definition g7_init : g7 := mkG7 [] [] [] [] false None [] false [] [].
+Definition g7_init : g7 := mkG7 [] [] [] [] false None [] false false [].
 
 Definition dedup_by {A} (eqb : A -> A -> bool) (l : list A) : list A :=
   fold_left (fun acc x => if existsb (eqb x) acc then acc else acc ++ [x]) l [].
@@ -337,13 +354,31 @@ Definition c07_iter (g : g7) (st : dstate) (it : iter) (post : dstate) (obs : li
   : g7 * list verdict :=
   let now := it_now it in
   let late := g_late g || match g_due g with Some d => d <? now | None => false end in
+  (* interfaces that were taken away in this iteration: everything established there is void *)
+  let gone (k : N) : bool :=
+    match find_intf st k with Some _ => match find_intf post k with None => true | Some _ => false end | None => false end
+    || match nget k (d_regs st) with Some _ => match nget k (d_regs post) with None => true | Some _ => false end
+                                   | None => false end in
+  (* probes that were (re)started in this iteration - by a registration, a lost tie-break, a
+     conflict - begin a new series of three *)
+  let restarted : list pkey :=
+    flat_map (fun ir => flat_map (fun np =>
+                match aget (fst np) (rg_probing (get_reg st (fst ir))) with
+                | Some p0 => if pb_start p0 <? pb_start (snd np) then [(fst ir, lname (fst np))] else []
+                | None => [(fst ir, lname (fst np))]
+                end) (rg_probing (snd ir))) (d_regs post) in
+  let keepk (k : pkey) : bool := negb (gone (fst k)) && negb (existsb (pkey_eqb k) restarted) in
+  let last0 := filter (fun kv => keepk (fst kv)) (g_last g) in
+  let cnt0 := filter (fun kv => keepk (fst kv)) (g_cnt g) in
+  let rcnt0 := filter (fun kv => keepk (fst (fst kv), lname (r_name (snd (fst kv))))) (g_rcnt g) in
+  let est0 := filter (fun k => negb (gone (fst k))) (g_est g) in
   (* 1. probe spacing *)
   let pn := probed_names obs in
   let v_space :=
-    flat_map (fun k => match kget pkey_eqb k (g_last g) with
+    flat_map (fun k => match kget pkey_eqb k last0 with
                        | Some l => if now <? l + 250 then [VFail 31] else []
                        | None => [] end) pn in
-  (* probe questions are of type ANY and the authority section is ordered per name *)
+  (* probe questions are of type ANY *)
   let v_form :=
     flat_map (fun s => let m := snd s in
                        if is_probe m && negb (forallb (fun q => snd q =? TY_ANY) (o_q m)) then [VFail 37] else [])
@@ -355,31 +390,29 @@ Definition c07_iter (g : g7) (st : dstate) (it : iter) (post : dstate) (obs : li
   let est :=
     fold_left (fun acc kc => let '(k, c) := kc in
                              if (3 <=? c)
-                                && match kget pkey_eqb k (g_last g) with Some l => l + 250 <=? now | None => false end
+                                && match kget pkey_eqb k last0 with Some l => l + 250 <=? now | None => false end
                                 && negb (existsb (pkey_eqb k) acc)
-                             then acc ++ [k] else acc) (g_cnt g) (g_est g) in
+                             then acc ++ [k] else acc) cnt0 est0 in
   let established (i : N) (n : bytes) : bool :=
     existsb (same_name_ci n) free || existsb (pkey_eqb (i, lname n)) est in
-  let skew :=
-    g_skew g ++ flat_map (fun ir => flat_map (fun np => if pb_start (snd np) + 750 <=? pb_next (snd np)
-                                                        then [(fst ir, lname (fst np))] else [])
-                                             (rg_probing (snd ir))) (d_regs st ++ d_regs post) in
+  (* names of services whose addresses do not follow the interface table: they keep their
+     per-interface status when an interface is taken away and comes back *)
+  let static_names : list bytes :=
+    flat_map (fun s => if s_auto s then [] else svc_names (map snd (d_regs st) ++ map snd (d_regs post)) s) svcs in
   let proposed (i : N) (r : rr) : bool :=
     existsb (same_name_ci (r_name r)) free
-    || match kget rkey_eqb (i, r) (g_rcnt g) with Some c => 3 <=? c | None => false end in
+    || match kget rkey_eqb (i, r) rcnt0 with Some c => 3 <=? c | None => false end in
   let v_resp :=
     flat_map
       (fun s => let '(i, _, _, m) := s in
                 if o_resp m && negb (is_goodbye m) then
                   let uniq := filter (fun r => unique_type (r_type r)) (live_records m) in
-                  let olds := old_names (get_reg st i) ++ old_names (get_reg post i) in
                   (if forallb (fun r => established i (r_name r)) uniq then []
                    else if late then [VKnown 42]
-                   else if forallb (fun r => established i (r_name r) || existsb (pkey_eqb (i, lname (r_name r))) skew) uniq
-                   then [VKnown 46]
-                   else if existsb (fun r => negb (established i (r_name r)) && uses_old olds r) uniq
-                        && forallb (fun r => established i (r_name r) || uses_old olds r) uniq
-                   then [VKnown 43]
+                   else if g_toggled g
+                           && forallb (fun r => established i (r_name r)
+                                                || existsb (same_name_ci (r_name r)) static_names) uniq
+                   then [VKnown 48]
                    else [VFail 32])
                   ++ (if is_announcement m
                          && forallb (fun r => established i (r_name r)) uniq
@@ -387,35 +420,26 @@ Definition c07_iter (g : g7) (st : dstate) (it : iter) (post : dstate) (obs : li
                       then [VKnown 44] else [])
                 else [])
       (sends_of obs) in
-  (* 3. the daemon asks to be woken no later than its next due work.  Known deviation: a probe
-        that prepare_announce creates while the probing handler runs gets no timer. *)
+  (* 3. the daemon asks to be woken no later than its next due work *)
   let due := due_work post in
+  (* known deviation: a probe that prepare_announce creates while a RegisterResend runs (the
+     registry of the interface was reset in between) gets no timer *)
   let g4 := filter (fun d => g_v4 d) (it_dgrams it) in
   let g6 := filter (fun d => negb (g_v4 d)) (it_dgrams it) in
   let '(st1, _, js1) := handle_dgrams st (g4 ++ g6) now (it_jitter it) in
   let '(st2, _, js2) := exec_calls st1 (it_calls it) now js1 in
   let '(st3, _, _) := retransmit st2 now js2 in
-  (* probes that exist after the iteration but not before its probing handler ran, and the
-     earlier ones of that kind that have not fired since *)
   let probes_of (d : dstate) : list (pkey * N) :=
     flat_map (fun ir => map (fun np => ((fst ir, [fst np]), pb_next (snd np))) (rg_probing (snd ir))) (d_regs d) in
   let key_next_eqb (a b : pkey * N) : bool := pkey_eqb (fst a) (fst b) && (snd a =? snd b) in
-  (* names whose probe finished in this iteration's probing pass: a probe under such a name
-     afterwards was created by the handler *)
-  let finished : list pkey :=
-    flat_map (fun ir => map (fun n => (fst ir, [n])) (snd (tick_names (snd ir) now))) (d_regs st3) in
-  let before := probes_of st3 in
   let after := probes_of post in
   let unarmed :=
-    filter (fun kn => existsb (key_next_eqb kn) after) (g_unarmed g)
-    ++ filter (fun kn => (negb (existsb (key_next_eqb kn) before) && negb (snd kn =? probe_next_send now))
-                         || existsb (pkey_eqb (fst kn)) finished) after in
-  let offenders (w : option N) : list (pkey * N) :=
-    filter (fun kn => match w with Some w => snd kn <? w | None => true end) after in
-  let retrans_late (w : option N) : bool :=
-    existsb (fun e => match w with Some w => fst e <? w | None => true end) (d_retrans post) in
+    filter (fun kn => existsb (key_next_eqb kn) after)
+           (g_unarmed g ++ filter (fun kn => negb (existsb (key_next_eqb kn) (probes_of st2))) (probes_of st3)) in
   let classify (w : option N) : list verdict :=
-    if negb (retrans_late w) && forallb (fun kn => existsb (key_next_eqb kn) unarmed) (offenders w)
+    if negb (existsb (fun e => match w with Some w => fst e <? w | None => true end) (d_retrans post))
+       && forallb (fun kn => existsb (key_next_eqb kn) unarmed)
+                  (filter (fun kn => match w with Some w => snd kn <? w | None => true end) after)
     then [VKnown 45] else [VFail 34] in
   let v_wake :=
     if d_dead post then []
@@ -425,6 +449,8 @@ Definition c07_iter (g : g7) (st : dstate) (it : iter) (post : dstate) (obs : li
          | None, _ => []
          end in
   (* 4. second announcement one second after the first *)
+  let toggled := g_toggled g || existsb (fun c => match c with CIfSel _ _ => true | _ => false end) (it_calls it) in
+  let adding := toggled in
   let anns := dedup_by pkey_eqb
                 (flat_map (fun s => let '(i, _, _, m) := s in
                                     if is_announcement m
@@ -433,21 +459,23 @@ Definition c07_iter (g : g7) (st : dstate) (it : iter) (post : dstate) (obs : li
                                     else []) (sends_of obs)) in
   (* a service that is registered again starts over *)
   let rereg := flat_map (svc_names (map snd (d_regs post))) (registered_in (it_calls it)) in
-  let g_ann0 := filter (fun kv => negb (existsb (fun n => labels_beq (snd (fst kv)) (lname n)) rereg)) (g_ann g) in
+  let g_ann0 := filter (fun kv => negb (gone (fst (fst kv)))
+                                  && negb (existsb (fun n => labels_beq (snd (fst kv)) (lname n)) rereg)) (g_ann g) in
   let g_ann' :=
     fold_left (fun acc k => match kget pkey_eqb k acc with
-                            | Some (t0, c) => kset pkey_eqb k (t0, c + 1) acc
-                            | None => kset pkey_eqb k (now, 1) acc end) anns g_ann0 in
+                            | Some (t0, c, a) => kset pkey_eqb k (t0, c + 1, a) acc
+                            | None => kset pkey_eqb k (now, 1, adding) acc end) anns g_ann0 in
   let unreg := g_unreg g || existsb (fun c => match c with CUnregister _ _ | CShutdown => true | _ => false end)
                                     (it_calls it) in
   let v_second :=
     if unreg || late || d_dead post then []
-    else flat_map (fun kv => let '(_, (t0, c)) := kv in
-                             if (t0 + 1000 <=? now) && (c <? 2) then [VFail 35] else []) g_ann' in
-  (mkG7 (fold_left (fun acc k => kset pkey_eqb k now acc) pn (g_last g))
-        (fold_left (fun acc k => incr pkey_eqb k acc) pn (g_cnt g))
-        (fold_left (fun acc k => incr rkey_eqb k acc) (probed_records obs) (g_rcnt g))
-        est late (if d_dead post then None else due) g_ann' unreg unarmed (dedup_by pkey_eqb skew),
+    else flat_map (fun kv : pkey * (N * N * bool) =>
+                     let '(t0, c, a) := snd kv in
+                     if (t0 + 1000 <=? now) && (c <? 2) then (if a || toggled then [VKnown 47] else [VFail 35]) else []) g_ann' in
+  (mkG7 (fold_left (fun acc k => kset pkey_eqb k now acc) pn last0)
+        (fold_left (fun acc k => incr pkey_eqb k acc) pn cnt0)
+        (fold_left (fun acc k => incr rkey_eqb k acc) (probed_records obs) rcnt0)
+        est late (if d_dead post then None else due) g_ann' unreg toggled unarmed,
    v_space ++ v_form ++ v_resp ++ v_wake ++ v_second).
 
 (* ---- running a checker next to the model over a whole history ------------------------------------- *)
@@ -462,11 +490,12 @@ Fixpoint chk_C09 (st : dstate) (its : list iter) (obs : list observed) : list ve
   | _, _ => []
   end.
 
-Fixpoint chk_C08 (st : dstate) (its : list iter) (obs : list observed) : list verdict :=
+Fixpoint chk_C08 (defer : list (pkey * N)) (st : dstate) (its : list iter) (obs : list observed) : list verdict :=
   match its, obs with
   | it :: t, o :: ot =>
-    let '(st', _, em, _) := iterate st it in
-    (if d_dead st then [] else c08_iter st it st' (ob_outs o) (ob_end o) em) ++ chk_C08 st' t ot
+    let '(st', mos, em, _) := iterate st it in
+    if d_dead st then chk_C08 defer st' t ot
+    else let (defer', vs) := c08_iter defer st it st' (ob_outs o) mos (ob_end o) em in vs ++ chk_C08 defer' st' t ot
   | _, _ => []
   end.
 
